@@ -16,8 +16,8 @@ type XMLOpts struct {
 	Small    bool
 }
 
-var xmlNames = []string{"a", "b", "c", "d", "item", "e-f", "Name", "ns:g", "x1", "list"}
-var xmlAttrNames = []string{"id", "k", "x", "y-z", "Ref", "n"}
+var xmlNames = []string{"a", "b", "c", "d", "item", "e-f", "Name", "ns:g", "x1", "list", "ab", "items", "a1", "B"}
+var xmlAttrNames = []string{"id", "k", "x", "y-z", "Ref", "n", "idx", "key", "xa"}
 var xmlTexts = []string{"v", "1", "true", "hello world", "3.14", " padded ", "x&amp;y", "&lt;tag&gt;", "q&quot;&apos;", "é☃", "<![CDATA[<c>&d]]>", "a>b", "0", "-7", "line1\nline2", "]", "}{"}
 
 func genXMLDoc(t *Tape, o XMLOpts) string {
